@@ -178,9 +178,20 @@ func (w *World) woStore(loc string) *woResult {
 			case ssa.CallInstruction:
 				cc := x.Common()
 				cal := cc.StaticCallee()
-				if cal == nil || w.singleSiteCI(cal) != x {
+				if cal == nil {
 					ok = false
 					continue
+				}
+				if w.singleSiteCI(cal) != x {
+					// several call sites, every one handing in this object for that parameter
+					for i, a := range cc.Args {
+						if a == v && (i >= len(cal.Params) || w.uniformArgOf(cal.Params[i]) == nil) {
+							ok = false
+						}
+					}
+					if !ok {
+						continue
+					}
 				}
 				for i, a := range cc.Args {
 					if a == v && i < len(cal.Params) {
